@@ -22,7 +22,59 @@ func (x *Exec) doCall(st *State, c *ssa.CallCommon, pos token.Pos) []Outcome {
 		return x.builtin(st, b, c, args, pos)
 	}
 	fv := x.eval(st, c.Value)
+	if x.isNoReturn(c.Value) {
+		return x.noreturnCall(st, fv, args, pos)
+	}
 	return x.callVal(st, fv, args, c, pos)
+}
+
+// isNoReturn: the callee is loaded from a package variable or struct field declared `noreturn` (the process-exit indirection)
+func (x *Exec) isNoReturn(v ssa.Value) bool {
+	u, ok := v.(*ssa.UnOp)
+	if !ok || u.Op != token.MUL {
+		return false
+	}
+	switch a := u.X.(type) {
+	case *ssa.Global:
+		for _, nr := range x.cs.NoReturns {
+			if nr.Kind == "var" && nr.Name == a.Name() && a.Pkg.Pkg.Path() == nr.PkgPath {
+				return true
+			}
+		}
+	case *ssa.FieldAddr:
+		pt, ok := a.X.Type().Underlying().(*types.Pointer)
+		if !ok {
+			return false
+		}
+		named, ok := pt.Elem().(*types.Named)
+		if !ok {
+			return false
+		}
+		st, ok := named.Underlying().(*types.Struct)
+		if !ok {
+			return false
+		}
+		fname := named.Obj().Name() + "." + st.Field(a.Field).Name()
+		for _, nr := range x.cs.NoReturns {
+			if nr.Kind == "field" && nr.Name == fname && named.Obj().Pkg().Path() == nr.PkgPath {
+				return true
+			}
+		}
+	}
+	return false
+}
+
+func (x *Exec) noreturnCall(st *State, fv Val, args []Val, pos token.Pos) []Outcome {
+	x.trusted["A-exit: the process-exit function (cli.exiter / Step.Exiter) does not return"] = true
+	ft := x.term(st, fv, pos)
+	x.oblige(st, "safety", "nil-func-call", Not(Eq(ft, IntLit(0))), pos)
+	code := IntLit(0)
+	if len(args) > 0 {
+		code = x.term(st, args[0], pos)
+	}
+	x.emit(st, evExit, code, IntLit(0), mk("Str", "sempty"))
+	st.Note("exit")
+	return []Outcome{{st: st, exited: true}}
 }
 
 func (x *Exec) callVal(st *State, fv Val, args []Val, c *ssa.CallCommon, pos token.Pos) []Outcome {
@@ -88,9 +140,18 @@ func (x *Exec) callback(st *State, fv *Term, args []Val, pos token.Pos) []Outcom
 	if len(argT) > 0 && argT[0].Sort == "Int" {
 		a0 = argT[0]
 	}
+	x.reg.SeqSort("Ev")
+	x.reg.DeclFunc("cbReturns", []string{"Int", "Int"}, "Bool")
+	x.reg.DeclFunc("cbPanicVal", []string{"Int", "Int"}, "Iface")
+	x.reg.Axiom("(assert (forall ((f Int) (n Int)) (! (not (= (itag (cbPanicVal f n)) 0)) :pattern ((cbPanicVal f n)))))")
+	at := App("Int", "len_Ev", st.trace)
+	returns := App("Bool", "cbReturns", fv, at)
+	pval := App("Iface", "cbPanicVal", fv, at)
 	x.emit(st, evCall, fv, a0, mk("Str", "sempty"))
 	// normal return
 	st2 := st.Clone()
+	st.Assume(returns)
+	st2.Assume(Not(returns))
 	var rs []Val
 	if sig != nil {
 		for i := 0; i < sig.Results().Len(); i++ {
@@ -108,8 +169,7 @@ func (x *Exec) callback(st *State, fv *Term, args []Val, pos token.Pos) []Outcom
 	st.allocCtr = na
 	outs := []Outcome{{st: st, results: rs}}
 	// panic
-	pv := st2.Fresh("cbpanic", "Iface")
-	st2.Assume(Not(Eq(pv, mk("Iface", "inil"))))
+	pv := pval
 	st2.Assume(Not(Eq(App("Int", "itag", pv), IntLit(0))))
 	st2.panicking = pv
 	st2.Note("callback panics")
@@ -205,9 +265,12 @@ func (x *Exec) callContract(st *State, fn *ssa.Function, con *Contract, args []V
 	}
 
 	var outs []Outcome
-	var stP *State
+	var stP, stE *State
 	if con.MayPanic {
 		stP = st.Clone()
+	}
+	if con.MayExit {
+		stE = st.Clone()
 	}
 	var results []*Term
 	var rvals []Val
@@ -229,6 +292,11 @@ func (x *Exec) callContract(st *State, fn *ssa.Function, con *Contract, args []V
 		stP.panicking = pv
 		stP.Note("callee " + key + " panics")
 		outs = append(outs, Outcome{st: stP, panicked: true})
+	}
+	if stE != nil {
+		mkPost(stE, con.Exits, nil, nil)
+		stE.Note("callee " + key + " exits")
+		outs = append(outs, Outcome{st: stE, exited: true})
 	}
 	return outs
 }
@@ -363,9 +431,12 @@ func (x *Exec) callContractSig(st *State, con *Contract, ms *methodStub, recv *T
 	st.Assume(Le(st.allocCtr, na))
 	st.allocCtr = na
 	st.Note("invoke " + key)
-	var stP *State
+	var stP, stE *State
 	if con.MayPanic {
 		stP = st.Clone()
+	}
+	if con.MayExit {
+		stE = st.Clone()
 	}
 	post := func(s *State, clauses []Clause, results []*Term, pv *Term) {
 		pc := x.newSpecCtx(s, nil, nil)
@@ -410,6 +481,10 @@ func (x *Exec) callContractSig(st *State, con *Contract, ms *methodStub, recv *T
 		post(stP, con.Panics, nil, pv)
 		stP.panicking = pv
 		outs = append(outs, Outcome{st: stP, panicked: true})
+	}
+	if stE != nil {
+		post(stE, con.Exits, nil, nil)
+		outs = append(outs, Outcome{st: stE, exited: true})
 	}
 	return outs
 }
